@@ -955,10 +955,10 @@ def rule_imports_followed(ck, F):
     constant well-known namespaces, it has no schemaLocation, or its file was read already. A test on part of the namespace text
     (prefix, suffix, substring, case-folded) skips schemas that do have definitions: their types disappear from the output."""
     empties = A.by_signature(F, [], "model::doc::RustDocument")
-    if len(empties) != 1:
-        ck.undecided("R5", "imports-followed", "-", f"the constructor of the empty document `fn() -> RustDocument` could not be attributed uniquely ({empties})")
+    if not empties:
+        ck.undecided("R5", "imports-followed", "-", "no constructor of the empty document `fn() -> RustDocument` was found")
         return
-    empty = empties[0]
+    empty = set(empties)     # (`empty()` and a derived `Default::default()` are the same document)
     g = scans.call_graph(F.lib)
     live = scans.api_reachable(F.lib)
     W = og.EnvWalker(F)
@@ -973,7 +973,7 @@ def rule_imports_followed(ck, F):
         sites = []
 
         def cb(e, env, ctx, sites=sites):
-            if e.get("k") in ("Call", "MethodCall") and (Hh.callee_path(e) or "") == empty:
+            if e.get("k") in ("Call", "MethodCall") and (Hh.callee_path(e) or "") in empty:
                 sites.append((Hh.sp(e), ctx))
         try:
             W.walk_fn(b["path"], cb)
